@@ -5,7 +5,25 @@ B    ?= build/asan
 CC   := gcc
 CXX  := g++
 
+# Two flavours (DESIGN.md section 2.1):
+#   asan (default): ASan + UBSan subset, preemption at synchronisation level
+#   fine          : repo C sources compiled with -fsanitize=thread but linked
+#                   against our own __tsan_* runtime (sim/tsanrt.cpp), which
+#                   turns every cross-thread memory access into a preemption
+#                   point; no ASan (gcc refuses the combination)
+FLAVOUR  ?= asan
+ifeq ($(FLAVOUR),fine)
+B        := build/fine
+SAN      :=
+CSAN     := -fsanitize=thread
+FINE_SRC := sim/tsanrt.cpp
+FINEDEF  := -DVSIM_FINE=1
+else
 SAN      := -fsanitize=address -fsanitize=bounds,unreachable,vla-bound -fno-sanitize-recover=all
+CSAN     :=
+FINE_SRC :=
+FINEDEF  :=
+endif
 COMMON   := -O1 -g -fno-omit-frame-pointer $(SAN) -fPIC -mavx2 -Wno-error -w
 REPOINC  := \
   -I$(REPO)/acquire-core-libs/src/acquire-core-logger \
@@ -17,9 +35,9 @@ REPOINC  := \
   -I$(REPO)/acquire-driver-common/src \
   -I$(REPO)/acquire-driver-common/src/simcams/3rdParty/pcg-c-basic-0.9
 REPODEFS := -DGIT_TAG=verif -DGIT_HASH=verif -DNDEBUG
-RCFLAGS  := $(COMMON) -std=gnu11 $(REPOINC) $(REPODEFS)
+RCFLAGS  := $(COMMON) $(CSAN) -std=gnu11 $(REPOINC) $(REPODEFS)
 RCXXFLAGS:= $(COMMON) -std=gnu++20 $(REPOINC) $(REPODEFS)
-VCXXFLAGS:= -O1 -g -fno-omit-frame-pointer $(SAN) -std=gnu++20 -Wall -Wno-unused-function -Wno-missing-field-initializers -Wno-unknown-pragmas $(REPOINC)
+VCXXFLAGS:= -O1 -g -fno-omit-frame-pointer $(SAN) $(FINEDEF) -std=gnu++20 -Wall -Wno-unused-function -Wno-missing-field-initializers -Wno-unknown-pragmas $(REPOINC)
 
 # repo sources (object name = path with / replaced by __)
 REPO_C := \
@@ -56,7 +74,7 @@ REPO_CXX := \
 objname = $(B)/repo/$(subst /,__,$(basename $(1))).o
 REPO_OBJS := $(foreach s,$(REPO_C) $(REPO_CXX),$(call objname,$(s)))
 
-SIM_SRCS := sim/kernel.cpp sim/plan.cpp sim/super.cpp sim/files.cpp sim/seams.cpp sim/main.cpp
+SIM_SRCS := sim/kernel.cpp sim/plan.cpp sim/super.cpp sim/files.cpp sim/seams.cpp sim/main.cpp $(FINE_SRC)
 HAR_SRCS := $(wildcard harness/*.cpp) $(wildcard world/*.cpp)
 V_OBJS   := $(patsubst %.cpp,$(B)/v/%.o,$(SIM_SRCS) $(HAR_SRCS))
 
